@@ -537,6 +537,88 @@ pub struct WorldCfg {
     /// setup_channel gives every channel a permanent id that differs from its original id (the
     /// LDK flow); the channel is then in the channel map under both ids
     pub permanent_ids: bool,
+    /// the signer writes through vls-persist's BackupPersister (a main and a backup store)
+    pub backup: bool,
+}
+
+/// A persister that can be handed to the composite `BackupPersister` by value while the harness
+/// keeps a handle on it.
+pub struct SharedPersister(pub Arc<MemPersister>);
+impl lightning_signer::SendSync for SharedPersister {}
+impl Persist for SharedPersister {
+    fn enter(&self) -> Result<(), lightning_signer::persist::Error> {
+        self.0.enter()
+    }
+    fn prepare(&self) -> lightning_signer::persist::Mutations {
+        self.0.prepare()
+    }
+    fn commit(&self) -> Result<(), lightning_signer::persist::Error> {
+        self.0.commit()
+    }
+    fn put_batch_unlogged(&self, m: lightning_signer::persist::Mutations) -> Result<(), lightning_signer::persist::Error> {
+        self.0.put_batch_unlogged(m)
+    }
+    fn new_node(&self, node_id: &PublicKey, config: &lightning_signer::node::NodeConfig, state: &lightning_signer::node::NodeState) -> Result<(), lightning_signer::persist::Error> {
+        self.0.new_node(node_id, config, state)
+    }
+    fn update_node(&self, node_id: &PublicKey, state: &lightning_signer::node::NodeState) -> Result<(), lightning_signer::persist::Error> {
+        self.0.update_node(node_id, state)
+    }
+    fn delete_node(&self, node_id: &PublicKey) -> Result<(), lightning_signer::persist::Error> {
+        self.0.delete_node(node_id)
+    }
+    fn new_channel(&self, node_id: &PublicKey, stub: &lightning_signer::channel::ChannelStub) -> Result<(), lightning_signer::persist::Error> {
+        self.0.new_channel(node_id, stub)
+    }
+    fn delete_channel(&self, node_id: &PublicKey, channel: &ChannelId) -> Result<(), lightning_signer::persist::Error> {
+        self.0.delete_channel(node_id, channel)
+    }
+    fn new_tracker(&self, node_id: &PublicKey, tracker: &lightning_signer::chain::tracker::ChainTracker<lightning_signer::monitor::ChainMonitor>) -> Result<(), lightning_signer::persist::Error> {
+        self.0.new_tracker(node_id, tracker)
+    }
+    fn update_tracker(&self, node_id: &PublicKey, tracker: &lightning_signer::chain::tracker::ChainTracker<lightning_signer::monitor::ChainMonitor>) -> Result<(), lightning_signer::persist::Error> {
+        self.0.update_tracker(node_id, tracker)
+    }
+    fn get_tracker(
+        &self,
+        node_id: PublicKey,
+        validator_factory: Arc<dyn ValidatorFactory>,
+    ) -> Result<(lightning_signer::chain::tracker::ChainTracker<lightning_signer::monitor::ChainMonitor>, Vec<lightning_signer::persist::ChainTrackerListenerEntry>), lightning_signer::persist::Error> {
+        self.0.get_tracker(node_id, validator_factory)
+    }
+    fn update_channel(&self, node_id: &PublicKey, channel: &Channel) -> Result<(), lightning_signer::persist::Error> {
+        self.0.update_channel(node_id, channel)
+    }
+    fn get_channel(&self, node_id: &PublicKey, channel_id: &ChannelId) -> Result<lightning_signer::persist::model::ChannelEntry, lightning_signer::persist::Error> {
+        self.0.get_channel(node_id, channel_id)
+    }
+    fn get_node_channels(&self, node_id: &PublicKey) -> Result<Vec<(ChannelId, lightning_signer::persist::model::ChannelEntry)>, lightning_signer::persist::Error> {
+        self.0.get_node_channels(node_id)
+    }
+    fn update_node_allowlist(&self, node_id: &PublicKey, allowlist: Vec<String>) -> Result<(), lightning_signer::persist::Error> {
+        self.0.update_node_allowlist(node_id, allowlist)
+    }
+    fn get_node_allowlist(&self, node_id: &PublicKey) -> Result<Vec<String>, lightning_signer::persist::Error> {
+        self.0.get_node_allowlist(node_id)
+    }
+    fn get_nodes(&self) -> Result<Vec<(PublicKey, lightning_signer::persist::model::NodeEntry)>, lightning_signer::persist::Error> {
+        self.0.get_nodes()
+    }
+    fn clear_database(&self) -> Result<(), lightning_signer::persist::Error> {
+        self.0.clear_database()
+    }
+    fn on_initial_restore(&self) -> bool {
+        self.0.on_initial_restore()
+    }
+    fn recovery_required(&self) -> bool {
+        self.0.recovery_required()
+    }
+    fn begin_replication(&self) -> Result<lightning_signer::persist::Mutations, lightning_signer::persist::Error> {
+        self.0.begin_replication()
+    }
+    fn signer_id(&self) -> lightning_signer::persist::SignerId {
+        self.0.signer_id()
+    }
 }
 
 impl Default for WorldCfg {
@@ -552,6 +634,7 @@ impl Default for WorldCfg {
             onchain: false,
             cloud: false,
             permanent_ids: false,
+            backup: false,
         }
     }
 }
@@ -565,6 +648,8 @@ pub fn strict_policy(network: Network) -> SimplePolicy {
 pub struct World {
     pub cfg: WorldCfg,
     pub persister: Arc<MemPersister>,
+    /// the backup store behind vls-persist's BackupPersister (cfg.backup)
+    pub backup: Option<Arc<MemPersister>>,
     pub clock: Arc<ManualClock>,
     pub root: RootHandler,
     pub node: Arc<Node>,
@@ -659,7 +744,8 @@ impl World {
     pub fn new(cfg: WorldCfg) -> World {
         let store = HStore::new(cfg.cloud);
         let persister = Arc::new(KVVPersister(store, JsonFormat));
-        Self::build(cfg, persister, START_TIME)
+        let backup = if cfg.backup { Some(Arc::new(KVVPersister(HStore::new(false), JsonFormat))) } else { None };
+        Self::build_with_backup(cfg, persister, backup, START_TIME)
     }
 
     pub fn validator_factory(cfg: &WorldCfg) -> Arc<dyn ValidatorFactory> {
@@ -675,11 +761,19 @@ impl World {
     }
 
     pub fn build(cfg: WorldCfg, persister: Arc<MemPersister>, now: u64) -> World {
+        Self::build_with_backup(cfg, persister, None, now)
+    }
+
+    pub fn build_with_backup(cfg: WorldCfg, persister: Arc<MemPersister>, backup: Option<Arc<MemPersister>>, now: u64) -> World {
         let clock = Arc::new(ManualClock::new(Duration::from_secs(now)));
+        let node_persister: Arc<dyn Persist> = match &backup {
+            Some(b) => Arc::new(vls_persist::backup_persister::BackupPersister::new(SharedPersister(persister.clone()), SharedPersister(b.clone()))),
+            None => persister.clone() as Arc<dyn Persist>,
+        };
         let services = NodeServices {
             validator_factory: Self::validator_factory(&cfg),
             starting_time_factory: FixedStartingTimeFactory::new(START_TIME, 0),
-            persister: persister.clone() as Arc<dyn Persist>,
+            persister: node_persister,
             clock: clock.clone(),
             trusted_oracle_pubkeys: cfg.oracle_pubkeys.clone(),
         };
@@ -709,17 +803,28 @@ impl World {
         // building (or restoring) the node is one transaction of its own
         let _ = persister.0.prepare_request();
         persister.0.commit_request();
-        World { cfg, persister, clock, root, node }
+        World { cfg, persister, backup, clock, root, node }
     }
 
     /// Restart: a new signer restored from a deep copy of the store (the live one is dropped).
     pub fn restart(self) -> World {
         let now = self.now();
         let d = dump_persister(&self.persister);
+        let db = self.backup.as_ref().map(|b| dump_persister(b));
         let cfg = self.cfg.clone();
         drop(self);
         let cloud = cfg.cloud;
-        World::build(cfg, persister_from_dump_as(&d, cloud), now)
+        World::build_with_backup(cfg, persister_from_dump_as(&d, cloud), db.map(|d| persister_from_dump_as(&d, false)), now)
+    }
+
+    /// A second signer restored from a deep copy of the *backup* store alone (the main store is
+    /// lost); the live one keeps running.
+    pub fn clone_restored_from_backup(&self) -> Option<World> {
+        let b = self.backup.as_ref()?;
+        let d = dump_persister(b);
+        let mut cfg = self.cfg.clone();
+        cfg.backup = false;
+        Some(World::build(cfg, persister_from_dump_as(&d, false), self.now()))
     }
 
     /// A second signer restored from a deep copy of the store; the live one keeps running.
